@@ -160,7 +160,8 @@ mod verif {
             DIV => shadow::$t::checked_div(shadow::$t(x), shadow::$t(y)).map(|v| v.0),
             REM => shadow::$t::checked_rem(shadow::$t(x), shadow::$t(y)).map(|v| v.0),
             AND => Some(x & y), OR => Some(x | y), XOR => Some(x ^ y),
-            SHL => if ($y as i128) < 0 || ($y as i128) >= w { None } else { Some(x << ($y as u32)) },
+            // x * 2^y, when the kind can hold it: no set bit (no sign change) may be shifted out -- shifting back gives x
+            SHL => if ($y as i128) < 0 || ($y as i128) >= w { None } else { let v = x << ($y as u32); if (v >> ($y as u32)) == x { Some(v) } else { None } },
             _   => if ($y as i128) < 0 || ($y as i128) >= w { None } else { Some(x >> ($y as u32)) },
         };
         v.map(|v| v as i128)
@@ -323,12 +324,17 @@ UNITS = [FoldUnit()]
 NEG_SPEC = r"""
 use vstd::prelude::*;
 verus! {
+pub struct VErr;
 pub enum Number { Integer(Vec<char>), BigInt(Vec<char>), Float(Vec<char>), Byte(Vec<char>) }
 pub open spec fn kind(n: Number) -> int { match n { Number::Integer(_) => 0, Number::BigInt(_) => 1, Number::Float(_) => 2, Number::Byte(_) => 3 } }
 pub open spec fn text(n: Number) -> Seq<char> { match n { Number::Integer(s) | Number::BigInt(s) | Number::Float(s) | Number::Byte(s) => s@ } }
 // the numeral with the opposite sign
 pub open spec fn flipped(s: Seq<char>) -> Seq<char> { if s.len() > 0 && s[0] == '-' { s.drop_first() } else { "-"@ + s } }
-// str::strip_prefix(char) / String concatenation (assumed std contracts)
+// the integer a decimal numeral denotes (uninterpreted); decimal notation: the numeral with the opposite sign denotes the opposite number
+pub uninterp spec fn val(s: Seq<char>) -> int;
+#[verifier::external_body] pub broadcast proof fn axiom_flipped_val(s: Seq<char>) ensures #[trigger] val(flipped(s)) == -val(s) {}
+// str::strip_prefix(char) / String concatenation / str::parse / to_string (assumed std contracts; numerals are well formed -- digits with at
+// most one leading '-' -- by the grammar and stay so under a sign flip, so parsing fails exactly when the value is out of range)
 #[verifier::external_body]
 pub fn strip_prefix_char(s: &Vec<char>, c: char) -> (r: Option<Vec<char>>)
     ensures (r is Some <==> (s@.len() > 0 && s@[0] == c)), r is Some ==> r->Some_0@ == s@.drop_first() { unimplemented!() }
@@ -336,6 +342,12 @@ pub fn strip_prefix_char(s: &Vec<char>, c: char) -> (r: Option<Vec<char>>)
 pub fn concat_lit(a: &'static str, b: &Vec<char>) -> (r: Vec<char>) ensures r@ == a@ + b@ { unimplemented!() }
 #[verifier::external_body]
 pub fn to_owned_chars(s: Vec<char>) -> (r: Vec<char>) ensures r@ == s@ { unimplemented!() }
+#[verifier::external_body]
+pub fn parse_i32(s: &Vec<char>) -> (r: Result<i32, VErr>) ensures r is Ok <==> i32::MIN <= val(s@) <= i32::MAX, r is Ok ==> r->Ok_0 == val(s@) { unimplemented!() }
+#[verifier::external_body]
+pub fn parse_i128(s: &Vec<char>) -> (r: Result<i128, VErr>) ensures r is Ok <==> i128::MIN <= val(s@) <= i128::MAX, r is Ok ==> r->Ok_0 == val(s@) { unimplemented!() }
+#[verifier::external_body] pub fn i32_to_chars(v: i32) -> (r: Vec<char>) ensures val(r@) == v { unimplemented!() }
+#[verifier::external_body] pub fn i128_to_chars(v: i128) -> (r: Vec<char>) ensures val(r@) == v { unimplemented!() }
 """
 
 
@@ -349,6 +361,12 @@ def build_negate(repo):
         Rule("R9", "x . strip_prefix ( '-' )", "strip_prefix_char ( x , '-' )", why="str::strip_prefix(char) with its std contract"),
         Rule("R1", "positive . to_owned ( )", "to_owned_chars ( positive )", why="&str::to_owned"),
         Rule("R1", "\"-\" . to_owned ( ) + x", "concat_lit ( \"-\" , x )", why="String concatenation"),
+        Rule("R3", "static OVERFLOW : & str = $m ;", "", why="message text dropped"),
+        Rule("R3", "bail ! $a", "return Err ( VErr )", why="bail! -> return Err"),
+        Rule("R5", "flip_sign ( x ) . parse :: < i32 > ( )", "parse_i32 ( & flip_sign ( x ) )", why="str::parse::<i32> with its std contract"),
+        Rule("R5", "flip_sign ( x ) . parse :: < i128 > ( )", "parse_i128 ( & flip_sign ( x ) )", why="str::parse::<i128> with its std contract"),
+        Rule("R5", "Integer ( negated . to_string ( ) )", "Integer ( i32_to_chars ( negated ) )", why="i32::to_string"),
+        Rule("R5", "BigInt ( negated . to_string ( ) )", "BigInt ( i128_to_chars ( negated ) )", why="i128::to_string"),
     ]
     b = translate(f["body"], rules, log, "Number::negate")
     out = []
@@ -361,12 +379,22 @@ def build_negate(repo):
     gen = header(log, f"{NUM}: Number::negate") + NEG_SPEC + f"""
 impl Number {{
     //@ OBL C06.negate
-    pub fn negate(&self) -> (r: Option<Number>)
+    // the folded unary minus against the run-time one: same kind (bytes cannot be negated); for int / bigint the exact opposite value, and a
+    // failure exactly when that value is not representable in the kind (the run-time operator overflows there); a float has its sign toggled
+    pub fn negate(&self) -> (r: Result<Option<Number>, VErr>)
+        requires
+            // a literal of kind int / bigint is in the range of its kind (number_from_string, obligation C02.literal.kind)
+            kind(*self) == 0 ==> i32::MIN <= val(text(*self)) <= i32::MAX,
+            kind(*self) == 1 ==> i128::MIN <= val(text(*self)) <= i128::MAX,
         ensures
-            // the run-time unary minus keeps the kind of a number (and is not defined on bytes): so must the folded one
-            kind(*self) == 3 <==> r is None,
-            r is Some ==> kind(r->Some_0) == kind(*self) && text(r->Some_0) == flipped(text(*self)),
+            kind(*self) == 3 ==> r == Ok::<Option<Number>, VErr>(None),
+            kind(*self) == 0 ==> (r is Ok <==> -val(text(*self)) <= i32::MAX),
+            kind(*self) == 1 ==> (r is Ok <==> -val(text(*self)) <= i128::MAX),
+            kind(*self) == 2 ==> r is Ok && r->Ok_0 is Some && text(r->Ok_0->Some_0) == flipped(text(*self)),
+            r is Ok && kind(*self) != 3 ==> r->Ok_0 is Some && kind(r->Ok_0->Some_0) == kind(*self),
+            r is Ok && (kind(*self) == 0 || kind(*self) == 1) ==> val(text(r->Ok_0->Some_0)) == -val(text(*self)),
     {{
+        broadcast use axiom_flipped_val;
         proof {{ reveal_strlit("-"); assert("-"@ =~= seq!['-']); }}
 {render(out, 2)}
     }}
@@ -374,7 +402,7 @@ impl Number {{
 }} // verus!
 fn main() {{}}
 """
-    return gen, [Obl("C06.negate", ["C06"], fn="Number::negate", desc="Number::negate: same kind, sign of the numeral toggled (never `--5`); bytes cannot be negated")], log
+    return gen, [Obl("C06.negate", ["C06"], fn="Number::negate", desc="Number::negate: same kind; int / bigint get the exact opposite value and fail exactly when it is not representable (as the run-time operator does); float sign toggled; bytes cannot be negated")], log
 
 
 UNITS.append(VUnit("c06_negate", ["C06"], "folded unary minus keeps kind, toggles sign", build_negate))
